@@ -24,7 +24,8 @@ class ListAdapter:
         self.mod = mod
 
     def new_world(self):
-        return {"l": None, "node": {}, "ident": {}}
+        self._worlds = getattr(self, "_worlds", 0) + 1       # the kind of iterable handed to extend varies from drive to drive
+        return {"l": None, "node": {}, "ident": {}, "lazy_salt": self._worlds}
 
     def _register(self, w, node):
         n = len(w["node"]) + 1
@@ -66,6 +67,28 @@ class ListAdapter:
             raise Unexpected("a node that was never created by the list is linked")
         return {"built": True, "made": len(w["node"]), "fwd": fwd, "bwd": bwd, "len": len(l), "pays": list(l)}
 
+    def _lazy(self, w, method, payloads):
+        """the iterable is an iterator, a generator, or a generator that fails AFTER its last element (the caller catches that):
+        what was produced before the failure belongs to the list, like with list.extend"""
+        w["lazy"] = w.get("lazy", 0) + 1
+        kind = (w["lazy"] + len(payloads) + w.get("lazy_salt", 0)) % 3
+        if kind == 0:
+            method(iter(payloads))
+        elif kind == 1:
+            method(x for x in list(payloads))
+        else:
+            class SourceFailed(Exception):
+                pass
+
+            def gen():
+                for x in list(payloads):
+                    yield x
+                raise SourceFailed()
+            try:
+                method(gen())
+            except SourceFailed:
+                pass
+
     def apply(self, w, op):
         name = op["op"]
         l = w["l"]
@@ -79,13 +102,13 @@ class ListAdapter:
                 node = getattr(l, name)(op["p"])
                 return [self._register(w, node)]
             if name == "extend":
-                l.extend(iter(op["ps"]))
+                self._lazy(w, l.extend, op["ps"])
                 new = [n for n in self._forward(w, len(op["ps"])) if id(n) not in w["ident"]]
                 for n in new:
                     self._register(w, n)
                 return []
             if name == "pre_extend":
-                l.pre_extend(iter(op["ps"]))
+                self._lazy(w, l.pre_extend, op["ps"])
                 new = [n for n in self._forward(w, len(op["ps"])) if id(n) not in w["ident"]]
                 for n in reversed(new):
                     self._register(w, n)
